@@ -372,6 +372,238 @@ glue_harness! { #[kani::unwind(6)] fn g_fold_k2_close_dispatch_stop() { g_fold(2
 glue_harness! { #[kani::unwind(6)] fn g_fold_k0_drop() { g_fold(0, 1, END_DROP); } }
 glue_harness! { #[kani::unwind(7)] fn g_fold_k3_drop() { g_fold(3, 4, END_DROP); } }
 
+
+// -----------------------------------------------------------------------------------------
+// lock-discipline probes at the model's scheduling points (C02 / C04 / C13 mechanisms)
+// -----------------------------------------------------------------------------------------
+pub static mut PROBE_SENDS: u8 = 0;
+pub static mut PROBE_JOINS: u8 = 0;
+
+/// bound to `crossbeam::hooks::yield_point`: called by the channel model at the start of
+/// every queue operation and by the pool model inside `shutdown_join*` / `join*`
+pub fn lock_probe(kind: u8, obj: usize) {
+    unsafe {
+        let s = match G_STORE.as_ref() {
+            Some(s) => s,
+            None => return,
+        };
+        if obj == 0 && (kind == crossbeam::hooks::SEND || kind == crossbeam::hooks::TRY_SEND || kind == crossbeam::hooks::SENT) {
+            // something is being enqueued on the dispatch queue: the sender lock must be held,
+            // otherwise sends are not serialised (C02) and a dispatch can slip in behind the
+            // shutdown marker (C04)
+            PROBE_SENDS += 1;
+            let held = s.dispatch_tx.try_lock().is_err();
+            chk!(2, held, "every enqueue on the dispatch queue happens with the dispatch_tx lock held (sends are totally ordered)");
+            chk!(4, held, "close() enqueues the shutdown marker while holding the dispatch_tx lock, so no dispatch can be accepted behind it");
+            chk!(1, held, "an accepted action cannot be enqueued behind the shutdown marker");
+        }
+        if kind == crossbeam::hooks::JOIN {
+            PROBE_JOINS += 1;
+            // joining the pool while holding a lock the reducer / effects need would deadlock
+            let pool_free = s.pool.try_lock().is_ok();
+            let tx_free = s.dispatch_tx.try_lock().is_ok();
+            let subs_free = s.subscribers.try_lock().is_ok();
+            chk!(13, pool_free, "stop() does not hold the pool lock while it joins the pool (the reducer needs it to submit effects)");
+            chk!(13, tx_free && subs_free, "stop() holds no store lock while it joins the pool");
+        }
+    }
+}
+
+fn g_locks(k: usize, end: u8) {
+    g_reset();
+    crossbeam::hooks::set_native(Some(lock_probe), None);
+    unsafe {
+        PROBE_SENDS = 0;
+        PROBE_JOINS = 0;
+    }
+    let store = mk_glue_store(4, BackpressurePolicy::BlockOnFull, kani::any());
+    unsafe {
+        core::ptr::write(&mut G_STORE, Some(store.clone()));
+    }
+    symbolic_summaries(k);
+    let mut j = 0;
+    while j < k {
+        let a: Act = kani::any();
+        let r = match j % 3 {
+            0 => StoreImpl::dispatch(&store, a),
+            1 => Dispatcher::dispatch(&store, a),
+            _ => <Store as StoreTrait<St, Act>>::dispatch(&store, a),
+        };
+        core::mem::forget(r);
+        j += 1;
+    }
+    match end {
+        END_DROP => drop(DroppableStore::new(store.clone())),
+        END_CLOSE_STOP => {
+            store.close();
+            store.stop();
+        }
+        _ => store.stop(),
+    }
+    rt::run_loop(0);
+    chk!(2, unsafe { PROBE_SENDS } as usize >= 2 * (k + 1), "VERIF: every enqueue was probed");
+    chk!(13, unsafe { PROBE_JOINS } >= 1, "VERIF: the join was probed");
+    kani::cover!(unsafe { PROBE_SENDS } > 0 && unsafe { PROBE_JOINS } > 0, "COVER probes fired");
+    unsafe {
+        core::ptr::write(&mut G_STORE, None);
+    }
+    core::mem::forget(store);
+    finish!(1, 2, 4, 13);
+}
+macro_rules! probe_harness {
+    ($(#[$m:meta])* fn $name:ident() $body:block) => {
+        glue_harness! {
+            #[kani::stub(crossbeam::hooks::yield_point, crate::verif_kani::g_glue::lock_probe)]
+            $(#[$m])*
+            fn $name() $body
+        }
+    };
+}
+probe_harness! { #[kani::unwind(7)] fn g_locks_k3_stop() { g_locks(3, END_STOP); } }
+probe_harness! { #[kani::unwind(7)] fn g_locks_k1_close_stop() { g_locks(1, END_CLOSE_STOP); } }
+probe_harness! { #[kani::unwind(7)] fn g_locks_k1_drop() { g_locks(1, END_DROP); } }
+
+// -----------------------------------------------------------------------------------------
+// S-race: one dispatch of another client thread placed at a scheduling point INSIDE
+// stop() / close() or inside the loop run that stop() waits for (C04 / C01 / C02)
+// -----------------------------------------------------------------------------------------
+static mut RACE_RES: u8 = 0; // 0 not run, 1 Ok, 2 Err
+static mut RACE_X: u8 = 0;
+static mut RACE_ENTRY: u8 = 0;
+static mut RACE_AT_CLOCK: u8 = 0;
+
+fn race_unit() {
+    unsafe {
+        let s = match G_STORE.as_ref() {
+            Some(s) => s,
+            None => return,
+        };
+        // enabledness of the unit at this placement: dispatch starts by taking the sender
+        // lock; if the suspended host holds it the other thread simply waits here (the call
+        // is then explored at the later placements instead)
+        if s.dispatch_tx.try_lock().is_err() {
+            return;
+        }
+        RACE_AT_CLOCK = rt::now();
+        let x = RACE_X;
+        let r = rt::in_ctx(rt::CTX_CLIENT, || match RACE_ENTRY {
+            0 => StoreImpl::dispatch(s, x),
+            1 => Dispatcher::dispatch(s, x),
+            _ => <Store as StoreTrait<St, Act>>::dispatch(s, x),
+        });
+        RACE_RES = if r.is_ok() { 1 } else { 2 };
+        core::mem::forget(r);
+    }
+}
+fn race_yield(kind: u8, obj: usize) {
+    if rt::at_placement(kind, obj) {
+        unsafe {
+            rt::IN_UNIT = true;
+        }
+        race_unit();
+        unsafe {
+            rt::IN_UNIT = false;
+        }
+    }
+}
+/// a nested unit that would block (full queue) is not enabled at this placement
+fn race_block(_kind: u8, _obj: usize) {
+    if unsafe { rt::IN_UNIT } {
+        kani::assume(false);
+    }
+    panic!("VERIF-DEADLOCK: host blocked with no scheduler");
+}
+
+/// backlog of `b` actions; T2 calls stop(); T1's dispatch runs at placement (kind,obj,occ)
+fn s_race(b: usize, kind: u8, obj: usize, occ: u8, entry: u8) {
+    g_reset();
+    crossbeam::hooks::set_native(Some(race_yield), Some(race_block));
+    let init: St = kani::any();
+    let store = mk_glue_store(4, BackpressurePolicy::BlockOnFull, init);
+    unsafe {
+        core::ptr::write(&mut G_STORE, Some(store.clone()));
+        RACE_RES = 0;
+        RACE_X = kani::any();
+        RACE_ENTRY = entry;
+    }
+    symbolic_summaries(b + 1);
+    let mut acts = [0u8; MAXA];
+    let mut j = 0;
+    while j < b {
+        acts[j] = kani::any();
+        core::mem::forget(StoreImpl::dispatch(&store, acts[j]));
+        j += 1;
+    }
+    rt::arm(kind, obj, occ);
+    store.stop();
+    rt::run_loop(0);
+    rt::run_pending(2);
+    unsafe {
+        rt::PLACE_ARMED = false;
+    }
+    let res = unsafe { RACE_RES };
+    let x = unsafe { RACE_X };
+    // the backlog is always processed, in order
+    let mut j = 0;
+    while j < b {
+        let r = unsafe { PH[j][PH_REDUCE] };
+        chk!(4, r.n == 1 && r.act == acts[j], "every action accepted before stop() is processed before stop() returns");
+        chk!(2, r.n == 1 && r.act == acts[j], "accepted actions keep their dispatch order");
+        j += 1;
+    }
+    let extra = unsafe { PH[b][PH_REDUCE] };
+    if res == 1 {
+        chk!(4, extra.n == 1 && extra.act == x, "a dispatch racing with stop() that returned Ok is processed before stop() returns");
+        chk!(1, extra.n == 1 && extra.act == x, "every accepted action is reduced exactly once");
+    } else {
+        chk!(4, extra.n == 0, "a dispatch racing with stop() that returned Err is never reduced");
+    }
+    if b + 1 < MAXA {
+        chk!(1, unsafe { PH[b + 1][PH_REDUCE].n } == 0, "nothing else is reduced");
+    }
+    kani::cover!(res == 1, "COVER-OPT racing dispatch accepted");
+    kani::cover!(res == 2, "COVER-OPT racing dispatch rejected");
+    kani::cover!(res != 0, "COVER-OPT the unit was enabled at this placement");
+    unsafe {
+        core::ptr::write(&mut G_STORE, None);
+    }
+    core::mem::forget(store);
+    finish!(1, 2, 4);
+}
+macro_rules! race_harness {
+    ($($name:ident = ($b:expr, $kind:expr, $obj:expr, $occ:expr, $entry:expr);)+) => { $(
+        glue_harness! {
+            #[kani::stub(crossbeam::hooks::yield_point, crate::verif_kani::g_glue::race_yield_pub)]
+            #[kani::stub(crossbeam::hooks::block, crate::verif_kani::g_glue::race_block_pub)]
+            #[kani::unwind(7)]
+            fn $name() { s_race($b, $kind, $obj, $occ, $entry); }
+        }
+    )+ };
+}
+pub fn race_yield_pub(kind: u8, obj: usize) {
+    race_yield(kind, obj)
+}
+pub fn race_block_pub(kind: u8, obj: usize) {
+    race_block(kind, obj)
+}
+use crossbeam::hooks as hk;
+race_harness! {
+    // inside close(): before the shutdown marker is enqueued, and right after
+    s_race_b1_close_send = (1, hk::SEND, 0, 0, 0);
+    s_race_b1_close_sent = (1, hk::SENT, 0, 0, 0);
+    s_race_b0_close_sent = (0, hk::SENT, 0, 0, 1);
+    // inside stop(): at the join
+    s_race_b1_join = (1, hk::JOIN, 0, 0, 2);
+    // inside the loop run: before / after taking each item, and in each phase of the backlog action
+    s_race_b1_loop_recv0 = (1, hk::RECV, 0, 0, 0);
+    s_race_b1_loop_taken0 = (1, hk::TAKEN, 0, 0, 1);
+    s_race_b1_loop_reduce = (1, rt::P_PHASE_REDUCE, 0, 0, 0);
+    s_race_b1_loop_effect = (1, rt::P_PHASE_EFFECT, 0, 0, 2);
+    s_race_b1_loop_notify = (1, rt::P_PHASE_NOTIFY, 0, 0, 0);
+    s_race_b1_loop_recv1 = (1, hk::RECV, 0, 1, 1);
+    s_race_b1_loop_taken1 = (1, hk::TAKEN, 0, 1, 0);
+}
+
 /// vacuity twin
 glue_harness! { #[kani::unwind(6)] fn twin_g_glue() {
     g_reset();
